@@ -564,6 +564,28 @@ class FileStorage(Storage):
         return tempstore.create()
 
 
+class RamLock(object):
+    """In-memory lock with the interface of the file locks: ``acquire()`` does
+    not block unless asked to.
+    """
+
+    def __init__(self):
+        self._lock = Lock()
+
+    def acquire(self, blocking=False):
+        return self._lock.acquire(blocking)
+
+    def release(self):
+        self._lock.release()
+
+    def __enter__(self):
+        self._lock.acquire()
+        return self
+
+    def __exit__(self, *args):
+        self._lock.release()
+
+
 class RamStorage(Storage):
     """Storage object that keeps the index in memory.
     """
@@ -628,7 +650,7 @@ class RamStorage(Storage):
 
     def lock(self, name):
         if name not in self.locks:
-            self.locks[name] = Lock()
+            self.locks[name] = RamLock()
         return self.locks[name]
 
     def temp_storage(self, name=None):
